@@ -242,9 +242,9 @@ func runC10(c *Ctx) {
 		}
 	}
 	for _, a := range c10RetryOps {
-		for _, b := range c10RetryOps {
+		for _, b := range append(append([]string{}, c10RetryOps...), "disconnect") {
 			for _, phase := range []string{"now", "reconnecting"} {
-				if phase == "now" && a > b {
+				if phase == "now" && a > b && b != "disconnect" {
 					continue
 				}
 				a, b, phase := a, b, phase
@@ -294,6 +294,9 @@ func runC10(c *Ctx) {
 								_ = rc.Stats()
 							case "client":
 								_ = rc.Client()
+							case "disconnect":
+								// the application shuts the client down while another goroutine still uses it
+								rc.Disconnect(ctx)
 							}
 						}
 						vrt.Go("op-"+a, func() { op(a, 0) })
